@@ -56,7 +56,7 @@ func c15(c *core.Ctx) {
 	}))
 
 	// C15.monotonic
-	rMono := c.Rule("C15.monotonic", "the guard ID counter is only ever incremented: an ID handed out once is never handed out again, so a late duplicate or foreign release can never match the current holder", 2)
+	rMono := c.Rule("C15.monotonic", "the guard ID counter is only ever incremented: an ID handed out once is never handed out again, so a late duplicate or foreign release can never match the current holder", 1)
 	for _, f := range p.FuncsIn(pkgGuard) {
 		if f.Decl.Body == nil {
 			continue
@@ -69,6 +69,77 @@ func c15(c *core.Ctx) {
 			ok := a.Form == "add+" || a.Form == "incdec+"
 			rMono.Check(ok, f.Key+":largestGuardID:"+a.Form, a.Node.Pos(), "increment",
 				"the ID counter is "+a.Form+"-written: IDs restart, a stale release (e.g. the caller's deferred release after Save already released in immediate-write mode) matches a later holder's ID and releases that holder's guard")
+		}
+	}
+
+	// every ID that enters the queue is fresh
+	rFresh := c.Rule("C15.freshid", "every ID appended to the wait queue is the counter's value right after it was advanced in the same critical section: the result of an atomic add of a positive constant, or a read of the counter dominated by an increment statement with no other queue append in between", 2)
+	{
+		f := start
+		info := f.Info()
+		fl := core.NewFlow(p, info, f.Decl.Body)
+		var appends []core.Access
+		for _, a := range core.Accesses(info, f.Decl.Body, map[*types.Var]bool{queue: true}, false) {
+			if a.Write && a.Form == "append" {
+				appends = append(appends, a)
+			}
+		}
+		incs := []core.Access{}
+		for _, a := range core.Accesses(info, f.Decl.Body, map[*types.Var]bool{counter: true}, false) {
+			if a.Write && (a.Form == "incdec+" || a.Form == "add+") {
+				incs = append(incs, a)
+			}
+		}
+		for _, a := range appends {
+			as := a.Node.(*ast.AssignStmt)
+			call := core.Unparen(as.Rhs[0]).(*ast.CallExpr)
+			fresh, how := false, "the appended value is not derived from an advanced counter"
+			if len(call.Args) == 2 {
+				v := call.Args[1]
+				if o := core.ObjOf(info, v); o != nil {
+					if def := localDef(info, f.Decl.Body, o); def != nil {
+						v = def
+					}
+				}
+				v = core.Unparen(v)
+				la := fl.MustLocate(a.Node)
+				switch e := v.(type) {
+				case *ast.CallExpr:
+					// atomic.AddInt64(&ctr, +k)
+					for _, in := range incs {
+						if in.Form == "add+" && in.Node == ast.Node(e) {
+							fresh, how = true, "atomic add result"
+						}
+					}
+				case *ast.SelectorExpr:
+					// plain read of the counter: needs a dominating increment statement, and no other append between it and this one
+					if core.FieldOf(info, e) == counter {
+						for _, in := range incs {
+							if in.Form != "incdec+" {
+								continue
+							}
+							li, ok := fl.Locate(in.Node)
+							if !ok || !fl.Dominates(li, la) {
+								continue
+							}
+							clean := true
+							for _, other := range appends {
+								if other.Node == a.Node {
+									continue
+								}
+								lo := fl.MustLocate(other.Node)
+								if fl.Dominates(li, lo) && fl.Dominates(lo, la) {
+									clean = false
+								}
+							}
+							if clean {
+								fresh, how = true, "read after increment"
+							}
+						}
+					}
+				}
+			}
+			rFresh.Check(fresh, f.Key+":waitForUnlock:append:fresh-id", a.Node.Pos(), how, "an ID enters the wait queue without the counter having been advanced for it ("+how+"): the next acquire hands out the same ID, a waiter then runs together with the holder and a former holder's duplicate release frees the next holder's guard")
 		}
 	}
 
